@@ -143,9 +143,14 @@ def trackOutcome (after : Runner) (s : Srv) : Srv :=
   | some o => { s with status := outcomeStatus o }
   | none => s
 
+/-- time that passes with an action of the run's environment -/
+def Act.dt : Act → Nat
+  | .advance dt => dt
+  | _ => 0
+
 def Srv.step (c : SrvCfg) (pol : Policy) (s : Srv) : SAct → Srv
   | .run a =>
-    let s1 : Srv := match a with | .advance dt => { s with now := s.now + dt } | _ => s
+    let s1 : Srv := { s with now := s.now + a.dt }
     match s.live with
     | none => s1
     | some r =>
